@@ -17,7 +17,7 @@ PROPERTY = "C15"
 LEVEL = "exploration"
 RULE = (
     "containers with data, attributes and metadata on the h5py and IH5 drivers; start nodes {root group, nested group, "
-    "dataset} x all 7 non-empty flag combinations (read_only, local_only, skel_only). From the restricted start node all "
+    "dataset} x all 7 non-empty flag combinations (read_only, local_only, skel_only) x start variants {restricted fresh wrapper; wrapper navigated from BEFORE it is restricted; child of a local-only ancestor restricted further afterwards}. From the restricted start node all "
     "navigation chains up to length 3 (quick) / 5 (thorough) over the primitives [] relative/absolute, get, items, "
     "values, iteration, visititems callback argument, parent, metador.query results, require_group (and file, observed "
     "only) are explored breadth-first over wrapper states (node, flags, local parent); chains are counted, terminals run "
@@ -207,7 +207,7 @@ def upward(n, is_start):
         t.update({"[abs]": lambda: n["/top"], "get(abs)": lambda: n.get("/top"), "create_group(abs)": lambda: n.create_group("/zz_esc"),
                   "__setitem__(abs)": lambda: n.__setitem__("/zz_esc2", 1), "require_group(abs)": lambda: n.require_group("/g"),
                   "__delitem__(abs)": lambda: n.__delitem__("/top"), "visit-abs": lambda: n["/"]})
-    if is_start:
+    if is_start == "local-root":
         t["parent"] = lambda: n.parent
     return t
 
@@ -220,13 +220,28 @@ def extras(n):
     return t
 
 
-def explore(acc, d, driver, start_path, flagset, maxlen, seed):
+def explore(acc, d, driver, start_path, flagset, maxlen, seed, variant="fresh"):
     from metador_core.plugins import schemas
     sub = build(d, driver)
-    desc0 = [driver, start_path, sorted(flagset)]
+    desc0 = [driver, start_path, sorted(flagset), variant]
 
     def start_node():
         n = sub.mc["/"] if start_path == "/" else sub.mc[start_path]
+        if variant == "prenav":
+            # the wrapper has been navigated from BEFORE it is restricted (anything cached then must not survive)
+            for pf in PRIMS.values():
+                try:
+                    pf(n)
+                except Exception:
+                    pass
+        if variant == "midchain" and start_path != "/":
+            # the start is reached from a local-only ancestor and gets its further restrictions afterwards
+            par = start_path.rsplit("/", 1)[0] or "/"
+            anc = (sub.mc["/"] if par == "/" else sub.mc[par]).restrict(local_only=True)
+            n = anc[start_path.rsplit("/", 1)[1]]
+            n.restrict(**{f: True for f in flagset})  # (local_only is inherited; setting it again would make n its own local root)
+            flagset.add("local_only")
+            return n
         return n.restrict(**{f: True for f in flagset})
 
     def rebuild():
@@ -253,15 +268,16 @@ def explore(acc, d, driver, start_path, flagset, maxlen, seed):
                 if missing and not via_file:
                     acc.violation(f"flag-dropped:{'+'.join(sorted(missing))}:{chain[-1] if chain else 'start'}",
                                   f"wrapper reached by {list(chain)} from {start_path} {sorted(flagset)} lacks {sorted(missing)} (has {sorted(flags_of(n))})",
-                                  {"driver": driver, "start": start_path, "flags": sorted(flagset), "chain": list(chain)})
+                                  {"driver": driver, "start": start_path, "flags": sorted(flagset), "variant": variant, "chain": list(chain)})
                 elif missing:
                     acc.count("observation.file_escape_drops_flags")
-                if "local_only" in flagset and not E.is_sub(sname, n.name) and not via_file:
+                lroot = sname if variant != "midchain" else (start_path.rsplit("/", 1)[0] or "/")
+                if "local_only" in flagset and not E.is_sub(lroot, n.name) and not via_file:
                     acc.violation(f"escaped-upward:{chain[-1] if chain else 'start'}",
                                   f"local-only start {start_path}: chain {list(chain)} reaches {n.name}",
-                                  {"driver": driver, "start": start_path, "flags": sorted(flagset), "chain": list(chain)})
+                                  {"driver": driver, "start": start_path, "flags": sorted(flagset), "variant": variant, "chain": list(chain)})
                 if not via_file:
-                    bad = terminals(acc, sub, n, flagset, chain == (), schemas, desc0, chain)
+                    bad = terminals(acc, sub, n, flagset, "local-root" if (n.name == lroot and getattr(n, "_self_local_parent", None) is None) else False, schemas, desc0, chain)
                     if bad == "rebuild":
                         rebuild()
                         return  # state of the container is gone; remaining chains are explored in other units/seeds
@@ -272,7 +288,7 @@ def explore(acc, d, driver, start_path, flagset, maxlen, seed):
                         pass
                     if not before <= flags_of(n):
                         acc.violation("restrict-cleared", f"restrict(flag=False) cleared {sorted(before - flags_of(n))} on {n.name}",
-                                      {"driver": driver, "start": start_path, "flags": sorted(flagset), "chain": list(chain)})
+                                      {"driver": driver, "start": start_path, "flags": sorted(flagset), "variant": variant, "chain": list(chain)})
                     acc.count("restrict_checks")
                 if depth == maxlen:
                     continue
@@ -303,7 +319,7 @@ def explore(acc, d, driver, start_path, flagset, maxlen, seed):
 
 
 def terminals(acc, sub, n, flagset, is_start, schemas, desc0, chain):
-    case = {"driver": desc0[0], "start": desc0[1], "flags": desc0[2], "chain": list(chain)}
+    case = {"driver": desc0[0], "start": desc0[1], "flags": desc0[2], "variant": desc0[3], "chain": list(chain)}
     if "read_only" in flagset:
         before = raw_dump(sub.raw)
         for name, fn in mutators(n, schemas).items():
@@ -365,14 +381,18 @@ def units(tier, seed):
     for driver in ("h5", "ih5"):
         for start in ("/", "/g", "/g/sub", "/g/d"):
             for c in combos:
-                us.append({"driver": driver, "start": start, "flags": list(c), "maxlen": 3 if tier == "quick" else 5, "seed": seed})
+                for variant in ("fresh", "prenav", "midchain"):
+                    if variant == "midchain" and (start == "/" or "local_only" in c):
+                        continue
+                    us.append({"driver": driver, "start": start, "flags": list(c), "maxlen": 3 if tier == "quick" else 5, "seed": seed, "variant": variant})
     return us
 
 
 def run_unit(u, acc):
     d = acc.newdir("c15")
     try:
-        explore(acc, d, u["driver"], u["start"], set(u["flags"]), u["maxlen"], u["seed"])
+        explore(acc, d, u["driver"], u["start"], set(u["flags"]), u["maxlen"], u["seed"], u.get("variant", "fresh"))
+        acc.count("variants." + u.get("variant", "fresh"))
     finally:
         acc.rmdir(d, collect=True)
 
@@ -383,4 +403,5 @@ def inconclusive(cov):
 
 
 def replay(case, acc):
-    run_unit({"driver": case["driver"], "start": case["start"], "flags": case["flags"], "maxlen": max(3, len(case.get("chain", []))), "seed": 0}, acc)
+    run_unit({"driver": case["driver"], "start": case["start"], "flags": [f for f in case["flags"] if f != "local_only" or case.get("variant") != "midchain"],
+              "maxlen": max(3, len(case.get("chain", []))), "seed": 0, "variant": case.get("variant", "fresh")}, acc)
